@@ -431,6 +431,38 @@ impl fmt::Display for ScanReport {
 }
 
 // ---------------------------------------------------------------------------------------
+// static description of a configuration (known without constructing it)
+
+#[derive(Clone, Copy, Debug)]
+pub struct SuiteMeta {
+    pub name: &'static str,
+    pub bs: usize,
+    /// declared width of the toy ciphers; 0 for real ciphers (depends on the CPU)
+    pub par: usize,
+    pub key_len: usize,
+    pub has_dec: bool,
+    pub is_toy: bool,
+    /// widest CTR counter instantiated (0, 32, 64, 128): all narrower flavours exist too
+    pub ctr: u32,
+    pub belt: bool,
+    /// part of the reduced table
+    pub small: bool,
+}
+
+impl SuiteMeta {
+    pub fn has_stream(&self, k: StreamKind) -> bool {
+        match k {
+            StreamKind::Ofb => true,
+            StreamKind::Ctr(w, _) => w <= self.ctr,
+            StreamKind::Belt => self.belt,
+        }
+    }
+    pub fn has_cts(&self) -> bool {
+        self.has_dec
+    }
+}
+
+// ---------------------------------------------------------------------------------------
 // one cipher configuration with everything instantiated over it
 
 pub struct Suite {
